@@ -144,6 +144,12 @@ def run_case(case, tier):
                 ev["c05s:keep-going"] += 1
             if len(r.invs) > 1:
                 ev["c05s:with-lock-holder-invocation"] += 1
+        # a failing script is no reason to abandon the jobs that are still running (only "start nothing new")
+        if r.orphans:
+            out.violation = {"property": "C05", "clause": "running-jobs-abandoned-after-a-failure", "step": 0,
+                             "detail": dict(ctx, orphans=r.orphans[:5]),
+                             "sig": {"symptom": "orphaned-job", "tier": "parallel"}}
+            return out
         # (1) exit status: non-zero iff something requested cannot be built
         if (minv.rc != 0) != bool(need_fail):
             if minv.rc != 0 and not need_fail and len(r.invs) > 1:
